@@ -98,7 +98,12 @@ def main():
         base = os.path.join(ROOT, "seeded")
         for d in sorted(os.listdir(base)):
             if os.path.isdir(os.path.join(base, d)) and (not a.only or a.only in d):
-                cands.append((os.path.join(base, d), d.split("-")[0], d))
+                pid = d.split("-")[0]
+                try:
+                    pid = json.load(open(os.path.join(base, d, "meta.json"))).get("breaks_property", pid)
+                except Exception:
+                    pass
+                cands.append((os.path.join(base, d), pid, d))
     elif a.src and a.by_meta:
         # layout <src>/<group>/<n>/ with the property taken from meta.json (round 4: file-oriented seeds)
         for g in sorted(os.listdir(a.src)):
